@@ -72,9 +72,24 @@ theorem stepBuiltin_pre (q : List Token) (s : LexCore) (r : Char) :
   apply ite_pre
   · exact rfl
   apply ite_pre
+  · exact rfl
+  apply ite_pre
   · exact ok_appendToken_pre q { s with state := .normal } _
   · exact (congrArg (fun x => stepNormal x r) (appendToken_pre q { s with state := .normal } _)).trans
       (stepNormal_pre q _ r)
+
+theorem stepMinusDot_pre (q : List Token) (s : LexCore) (r : Char) :
+    stepMinusDot (pre q s) r = (stepMinusDot s r).pre q := by
+  unfold stepMinusDot
+  apply ite_pre
+  · exact rfl
+  · have h := appendToken_pre q { s with state := .normal } ⟨.symbol, ['-']⟩
+    have h2 : ({ appendToken (pre q { s with state := Mode.normal }) ⟨.symbol, ['-']⟩ with
+          buffer := (appendToken (pre q { s with state := Mode.normal }) ⟨.symbol, ['-']⟩).buffer ++ ['.'] } : LexCore) =
+        pre q { appendToken { s with state := Mode.normal } ⟨.symbol, ['-']⟩ with
+          buffer := (appendToken { s with state := Mode.normal } ⟨.symbol, ['-']⟩).buffer ++ ['.'] } := by
+      rw [h]; rfl
+    exact (congrArg (fun y => stepNormal y r) h2).trans (stepNormal_pre q _ r)
 
 theorem stepFirstFwdSlash_pre (q : List Token) (s : LexCore) (r : Char) :
     stepFirstFwdSlash (pre q s) r = (stepFirstFwdSlash s r).pre q := by
@@ -120,6 +135,7 @@ theorem stepMode_pre (q : List Token) (s : LexCore) (r : Char) :
   case firstFwdSlash => exact stepFirstFwdSlash_pre q s r
   case freshAssignOrColon => exact stepFresh_pre q s r
   case builtinOperator => exact stepBuiltin_pre q s r
+  case minusDot => exact stepMinusDot_pre q s r
   case normal => exact stepNormal_pre q s r
   case strHexEscape => exact hexEscapeDigit_pre q s r _
   case runeHexEscape => exact hexEscapeDigit_pre q s r _
